@@ -565,14 +565,31 @@ func (g *Engine) registerIntrinsics() {
 			return a[0]
 		}
 	}
+	// products and quotients are computed at the narrowest width the operands' structure
+	// allows (ubits is a sound upper bound on the bit length), then widened again
+	narrow := func(tb *TermBank, t *Term, w int) *Term {
+		if w >= t.w {
+			return tb.ZExt(t, w)
+		}
+		return tb.Extract(t, w-1, 0)
+	}
 	I["(*math/big.Int).Mul"] = func(e *Exec, fn *ssa.Function, a []Value) Value {
 		tb := e.tb
-		x, y := tb.ZExt(bigOf(e, a[1]), 512), tb.ZExt(bigOf(e, a[2]), 512)
-		r := tb.Bin(OpMul, x, y)
-		if !e.branch(tb.Eq(tb.Extract(r, 511, 256), tb.BVu(0, 256))) {
-			e.handleLimit("oob", "big.Int result outside [0,2^256)")
+		x0, y0 := bigOf(e, a[1]), bigOf(e, a[2])
+		w := ubits(x0, 0) + ubits(y0, 0)
+		if w < 8 {
+			w = 8
 		}
-		e.store(a[0].(Ptr), BigV{tb.Extract(r, 255, 0)})
+		if w > 512 {
+			w = 512
+		}
+		r := tb.Bin(OpMul, narrow(tb, x0, w), narrow(tb, y0, w))
+		if w > 256 {
+			if !e.branch(tb.Eq(tb.Extract(r, w-1, 256), tb.BVu(0, w-256))) {
+				e.handleLimit("oob", "big.Int result outside [0,2^256)")
+			}
+		}
+		e.store(a[0].(Ptr), BigV{narrow(tb, r, 256)})
 		return a[0]
 	}
 	I["(*math/big.Int).Div"] = func(e *Exec, fn *ssa.Function, a []Value) Value {
@@ -581,7 +598,17 @@ func (g *Engine) registerIntrinsics() {
 		if !e.branch(tb.BNot(tb.Eq(y, tb.BVu(0, 256)))) {
 			e.goPanic("division by zero")
 		}
-		e.store(a[0].(Ptr), BigV{tb.Bin(OpUDiv, x, y)})
+		w := ubits(x, 0)
+		if wy := ubits(y, 0); wy > w {
+			w = wy
+		}
+		if w < 8 {
+			w = 8
+		}
+		if w > 256 {
+			w = 256
+		}
+		e.store(a[0].(Ptr), BigV{tb.ZExt(tb.Bin(OpUDiv, narrow(tb, x, w), narrow(tb, y, w)), 256)})
 		return a[0]
 	}
 	I["(*math/big.Int).Mod"] = func(e *Exec, fn *ssa.Function, a []Value) Value {
@@ -851,6 +878,64 @@ func (g *Engine) registerIntrinsics() {
 			e.wordFromBytes(salt.t, e.tb.BVu(0, 64), 32), e.keccakTerm(arr, off, n, max))
 		return BArr{e.bytesFromWord(t, 20), 20}
 	}
+}
+
+// ubits is a structural upper bound on the bit length of an unsigned bit-vector term
+// (value < 2^ubits); it never exceeds the term's width.
+func ubits(t *Term, depth int) int {
+	if t.w <= 0 {
+		return 0
+	}
+	if depth > 40 {
+		return t.w
+	}
+	sub := func(i int) int { return ubits(t.args[i], depth+1) }
+	maxi := func(a, b int) int {
+		if a > b {
+			return a
+		}
+		return b
+	}
+	mini := func(a, b int) int {
+		if a < b {
+			return a
+		}
+		return b
+	}
+	r := t.w
+	switch t.op {
+	case OpConst:
+		r = t.val.BitLen()
+	case OpZExt:
+		r = sub(0)
+	case OpExtract:
+		r = sub(0) - t.b
+		if r < 0 {
+			r = 0
+		}
+	case OpAdd:
+		r = maxi(sub(0), sub(1)) + 1
+	case OpMul:
+		r = sub(0) + sub(1)
+	case OpUDiv, OpLShr, OpURem:
+		r = sub(0)
+	case OpAnd:
+		r = mini(sub(0), sub(1))
+	case OpOr, OpXor:
+		r = maxi(sub(0), sub(1))
+	case OpIte:
+		r = maxi(sub(1), sub(2))
+	case OpConcat:
+		if h := sub(0); h == 0 {
+			r = sub(1)
+		} else {
+			r = t.args[1].w + h
+		}
+	}
+	if r > t.w {
+		r = t.w
+	}
+	return r
 }
 
 func minrepOf(v Value) *Term {
